@@ -93,6 +93,12 @@ RULE = ("every (dialect, construct incl. every combination of its boolean option
         "position (direct, operation and quote() streams); PostgreSQL alter-identity with six (existing, new) Identity pairs "
         "giving 0-5 SET clauses; MySQL/MariaDB DROP CHECK / DROP CONSTRAINT and the NotImplementedError branch; "
         "op.create_table_comment / drop_table_comment / add_column(commented Column). "
+        "DIALECT STATE: every construct and every operation is also run with a dialect that knows its default schema - "
+        "sqlite on a real connection (second schema ATTACHed) with as_sql=True, the server dialects as an object initialised "
+        "like Dialect.initialize leaves it (default_schema_name public/dbo/SYSTEM/test, server_version_info) passed through "
+        "MigrationContext.configure(dialect=...) - with schema = that default, another schema, one needing quotes, none, and "
+        "the default as quoted_name; the model is the same (the schema is always emitted, alembic's ddl code reads no dialect "
+        "state besides supports_comments/inline_comments and is_mariadb). "
         "Names of the known deviation classes are generated in the main stream "
         "only once their finding ids are registered in known_findings.json (always in the search stream).")
 EXHAUSTIVE = {"quick": False, "thorough": False}
@@ -186,18 +192,55 @@ def all_flag_sets(cname):
 _CTX = {}
 
 
-def _ctx(dialect):
-    if dialect not in _CTX:
+# "dialect state": how the dialect object of the MigrationContext came to be
+#   bare - built from the dialect name alone (default_schema_name is None)
+#   live - sqlite only: a real connection (with a second ATTACHed schema "aux"), as_sql=True on top of it
+#   init - a dialect object initialised the way Dialect.initialize(connection) leaves it (default_schema_name,
+#          server_version_info), passed through MigrationContext.configure(dialect=...)
+DEFAULT_SCHEMA = {"sqlite": "main", "postgresql": "public", "mssql": "dbo", "oracle": "SYSTEM", "mysql": "test",
+                  "mariadb": "test"}
+SERVER_VERSION = {"postgresql": (14, 5), "mssql": (15, 0, 2000, 5), "oracle": (19, 3), "mysql": (8, 0, 30),
+                  "mariadb": (10, 6, 12)}
+STATES = {"sqlite": ["live"], "postgresql": ["init"], "mssql": ["init"], "oracle": ["init"], "mysql": ["init"],
+          "mariadb": ["init"]}
+_CUR = {"state": "bare"}
+_KEEP = []      # live connections / engines stay open for the life of the worker
+
+
+def _ctx(dialect, state=None):
+    state = state or _CUR["state"]
+    if (dialect, state) not in _CTX:
         import logging
         import warnings
         warnings.simplefilter("ignore")
         logging.disable(logging.CRITICAL)
         from alembic.runtime.migration import MigrationContext
         buf = io.StringIO()
-        c = MigrationContext.configure(dialect_name=dialect, opts={"as_sql": True, "output_buffer": buf})
+        opts = {"as_sql": True, "output_buffer": buf}
+        if state == "bare":
+            c = MigrationContext.configure(dialect_name=dialect, opts=opts)
+        elif state == "live":
+            import sqlalchemy as sa
+            if dialect != "sqlite":
+                raise HarnessError("no live server for " + dialect)
+            engine = sa.create_engine("sqlite://")
+            conn = engine.connect()
+            conn.exec_driver_sql("ATTACH DATABASE ':memory:' AS aux")
+            _KEEP.extend([engine, conn])
+            c = MigrationContext.configure(connection=conn, opts=opts)
+            if c.dialect.default_schema_name != DEFAULT_SCHEMA["sqlite"]:
+                raise HarnessError("live sqlite dialect does not know its default schema")
+        else:
+            from sqlalchemy.engine import url as sa_url
+            d = sa_url.make_url(dialect + "://").get_dialect()()
+            d.default_schema_name = DEFAULT_SCHEMA[dialect]
+            d.server_version_info = SERVER_VERSION[dialect]
+            c = MigrationContext.configure(dialect=d, opts=opts)
+            if c.dialect is not d:
+                raise HarnessError("MigrationContext did not take the dialect object")
         ddlc = c.dialect.ddl_compiler(c.dialect, None)
-        _CTX[dialect] = (c, buf, ddlc)
-    return _CTX[dialect]
+        _CTX[(dialect, state)] = (c, buf, ddlc)
+    return _CTX[(dialect, state)]
 
 
 TYPES = {"int": lambda sa: sa.Integer(), "str5": lambda sa: sa.String(5), "num": lambda sa: sa.Numeric(10, 2)}
@@ -620,7 +663,14 @@ def run_op(h):
 
 
 def run_case(h):
-    return {"stmt": run_stmt, "quote": run_quote, "params": run_params, "op": run_op}[h["kind"]](h)
+    _CUR["state"] = h.get("state", "bare")
+    try:
+        r = {"stmt": run_stmt, "quote": run_quote, "params": run_params, "op": run_op}[h["kind"]](h)
+    finally:
+        _CUR["state"] = "bare"
+    if h.get("state", "bare") != "bare":
+        r["shape"] += "-" + h["state"]
+    return r
 
 
 # ----------------------------------------------------------------------------- generation
@@ -846,6 +896,52 @@ def gen_ops(tier, seed, with_findings):
         if h["dialect"] == "mssql" and h["op"][0] in ("table_comment", "drop_table_comment", "add_comment") and not h["schema"]:
             continue
         yield h
+    yield from gen_state_ops(tier, seed)
+
+
+def state_schemas(d):
+    """the dialect's own default schema, another schema, one that needs quotes, none"""
+    return [DEFAULT_SCHEMA[d], "aux" if d == "sqlite" else "other_sch", DEFAULT_SCHEMA[d].upper() + " x", None]
+
+
+def gen_state_stmts(tier, seed):
+    """configuration dimension 'dialect state': every construct with a dialect that knows its default schema"""
+    rnd = random.Random(seed * 31337 + 14)
+    for d in DIALECTS:
+        cl = name_classes(d)
+        for st in STATES[d]:
+            for cname in CONSTRUCTS:
+                if not emits(d, cname) or (cname in MYSQL_ONLY_GENERATED and d not in MYSQL_FAMILY):
+                    continue
+                fls = all_flag_sets(cname)
+                if tier == "quick" and len(fls) > 2:
+                    fls = [fls[0], fls[-1]]
+                for fl in fls:
+                    for sv in state_schemas(d):
+                        for t, c in ([("tbl", "col"), (cl["space"], cl["reserved"])] if tier == "quick" else
+                                     [("tbl", "col"), (cl["space"], cl["reserved"]), (cl["quotechar"], cl["squote"])]):
+                            h = stmt(d, [cname] + fl, sv, t, c, rnd)
+                            h["state"] = st
+                            yield h
+                    h = stmt(d, [cname] + fl, DEFAULT_SCHEMA[d], "tbl", "col", rnd, flags=dict(schema="true"))
+                    h["state"] = st
+                    yield h
+
+
+def gen_state_ops(tier, seed):
+    rnd = random.Random(seed * 31337 + 1415)
+    for d in DIALECTS:
+        cl = name_classes(d)
+        ops = [["alter", r] for r in (ALTER_SHAPES if tier != "quick" else ALTER_SHAPES[::2])]
+        ops += [["drop"] + [bool(m >> k & 1) for k in range(3)] for m in (range(8) if d == "mssql" else (0, 7))]
+        ops += [["rename_table"], ["add"], ["table_comment"], ["drop_table_comment"], ["add_comment"]]
+        for st in STATES[d]:
+            for o in ops:
+                for sv in state_schemas(d):
+                    for t, c in [("tbl", "col"), (cl["space"], cl["reserved"])]:
+                        h = op_case(d, o, sv, t, c, rnd)
+                        h["state"] = st
+                        yield h
 
 
 def _gen_ops(tier, seed, with_findings):
@@ -887,7 +983,8 @@ def _gen_ops(tier, seed, with_findings):
 
 
 def generate(tier, seed):
-    cases = list(gen(tier, seed, registered_findings())) + list(gen_ops(tier, seed, registered_findings()))
+    cases = (list(gen(tier, seed, registered_findings())) + list(gen_state_stmts(tier, seed))
+             + list(gen_ops(tier, seed, registered_findings())))
     # spread the (expensive to evaluate) params cases over the case shards
     params = [h for h in cases if h["kind"] == "params"]
     rest = [h for h in cases if h["kind"] != "params"]
@@ -909,7 +1006,8 @@ def generate(tier, seed):
 
 
 def search(tier, seed):
-    return list(gen("quick", seed + 1, set(FINDING_IDS.values()))) + list(gen_ops("quick", seed + 1, set(FINDING_IDS.values())))
+    return (list(gen("quick", seed + 1, set(FINDING_IDS.values()))) + list(gen_state_stmts("quick", seed + 1))
+            + list(gen_ops("quick", seed + 1, set(FINDING_IDS.values()))))
 
 
 def used_names(h):
